@@ -126,9 +126,11 @@ Proof. intros. unfold wrapk. now rewrite Hvm. Qed.
 Definition pc_owned (p : pc) : list Z :=
   match p with
   | AMark cv _ => [cv] | AMintMark v => [v] | FStore v _ _ => [v] | FCas v _ _ => [v] | ESlot v _ => [v]
+  | DLoad v => [v]
   | _ => []
   end.
-Definition owned_thread (th : thread) : list Z := map fst (held th) ++ map fst (taken th) ++ pc_owned (tpc th).
+Definition owned_thread (th : thread) : list Z :=
+  map fst (held th) ++ map fst (taken th) ++ pc_owned (tpc th) ++ acc_values (accs th).
 Definition ocnt (v : Z) (th : thread) : nat := cnt v (owned_thread th).
 Definition cntb (v : Z) (s : shared) : nat := cnt v (map fst (boxed s)).
 Definition total (v : Z) (s : shared) (ths : list thread) : nat := (cnt v (fl s) + sumf (ocnt v) ths + cntb v s)%nat.
@@ -150,11 +152,13 @@ Definition TIpc (s : shared) (p : pc) : Prop :=
   | FStore v cv ck => ck <= hk s /\ getz (sver s) v <= hk s + 1
   | FCas v cv ck => ck <= hk s /\ getz (sver s) v <= hk s + 1 /\ getz (nxt s) v = cv
   | ESlot v k => getz (sver s) v <= k /\ k <= hk s /\ getz (nxt s) v = ACT
+  | DLoad v => getz (sver s) v <= hk s + 1
   end.
 Definition TI (s : shared) (th : thread) : Prop :=
   (forall v k, In (v, k) (held th) -> getz (nxt s) v = ACT /\ getz (sver s) v <= hk s) /\
   (forall v k, In (v, k) (taken th) -> getz (nxt s) v = ACT /\ getz (sver s) v <= hk s + 1) /\
-  TIpc s (tpc th).
+  TIpc s (tpc th) /\
+  (forall v, In v (acc_values (accs th)) -> getz (nxt s) v = ACT /\ getz (sver s) v <= hk s + 1).
 
 Record Good (s : shared) (ths : list thread) : Prop := {
   g_cnt : forall v, total v s ths = inrange s v;
@@ -214,7 +218,9 @@ Proof. intros. unfold owned_thread. apply in_or_app. left. eapply in_map_fst; ea
 Lemma taken_owned : forall th v k, In (v, k) (taken th) -> In v (owned_thread th).
 Proof. intros. unfold owned_thread. apply in_or_app. right. apply in_or_app. left. eapply in_map_fst; eauto. Qed.
 Lemma pc_owned_in : forall th v, In v (pc_owned (tpc th)) -> In v (owned_thread th).
-Proof. intros. unfold owned_thread. apply in_or_app. right. apply in_or_app. now right. Qed.
+Proof. intros. unfold owned_thread. apply in_or_app. right. apply in_or_app. right. apply in_or_app. now left. Qed.
+Lemma acc_owned : forall th v, In v (acc_values (accs th)) -> In v (owned_thread th).
+Proof. intros. unfold owned_thread. apply in_or_app. right. apply in_or_app. right. apply in_or_app. now right. Qed.
 
 (* a thread's invariant survives a change of the shared state that leaves its own cells alone *)
 Lemma TI_frame : forall s s' th0,
@@ -225,7 +231,8 @@ Lemma TI_frame : forall s s' th0,
   (forall cv ck nx, cv <> tail c -> ck <= hk s -> aba2 s cv ck nx -> aba2 s' cv ck nx) ->
   TI s' th0.
 Proof.
-  intros s s' th0 (Hh & Ht & Hp) Hown Hk A1 A2. split; [|split].
+  intros s s' th0 (Hh & Ht & Hp & Hq) Hown Hk A1 A2. split; [|split; [|split]].
+  4:{ intros v Hi. destruct (Hown v (acc_owned _ _ Hi)) as [E1 E2]. destruct (Hq _ Hi). rewrite E1, E2. split; auto; lia. }
   - intros v k Hi. destruct (Hown v (held_owned _ _ _ Hi)) as [E1 E2]. destruct (Hh _ _ Hi). rewrite E1, E2. split; auto; lia.
   - intros v k Hi. destruct (Hown v (taken_owned _ _ _ Hi)) as [E1 E2]. destruct (Ht _ _ Hi). rewrite E1, E2. split; auto; lia.
   - pose proof (fun v H => Hown v (pc_owned_in th0 v H)) as Hpc. destruct (tpc th0); simpl in *; auto.
@@ -236,6 +243,7 @@ Proof.
     + destruct (Hpc v (or_introl eq_refl)) as [E1 E2]. rewrite E2. lia.
     + destruct (Hpc v (or_introl eq_refl)) as [E1 E2]. rewrite E1, E2. destruct Hp. split; auto; lia.
     + destruct (Hpc v (or_introl eq_refl)) as [E1 E2]. rewrite E1, E2. destruct Hp as (?&?&?). repeat split; auto; lia.
+    + destruct (Hpc v (or_introl eq_refl)) as [E1 E2]. rewrite E2. lia.
 Qed.
 
 Lemma chain_setz : forall nx x y l h, 0 <= x -> ~ In x l -> (forall z, In z l -> 0 <= z) ->
@@ -329,8 +337,47 @@ Proof.
     rewrite getz_setz_other; auto; lia.
 Qed.
 
+(* ---- accessors: the special members as regenerated from the source ---- *)
+Lemma acc_assign_swaps : forall a b, acc_assign (a, b) = (b, a).
+Proof. intros [ao [av ak]] [bo [bv bk]]. reflexivity. Qed.
+Lemma acc_ctor_spec : forall o, acc_ctor o = (o, (false, snd o)).
+Proof. intros [oo [ov ok]]. unfold acc_ctor. simpl. destruct oo; reflexivity. Qed.
+Lemma acc_dtor_fires_spec : forall a, acc_dtor_fires a = fst a.
+Proof. intros [[|] i]; reflexivity. Qed.
+Lemma dtor_value_spec : forall a, dtor_value a = fst (snd a).
+Proof. reflexivity. Qed.
+
+Definition cav (w : Z) (a : acc) : nat := if fst a then c1 (fst (snd a)) w else O.
+Lemma cnt_acc_values_cons : forall w a l, cnt w (acc_values (a :: l)) = (cav w a + cnt w (acc_values l))%nat.
+Proof. intros w [[|] i] l; unfold acc_values, cav; simpl; [apply cnt_cons|reflexivity]. Qed.
+Lemma cnt_acc_set : forall w h x l,
+  (cnt w (acc_values (set_acc h x l)) + cav w (get_acc l h) = cnt w (acc_values l) + cav w x)%nat.
+Proof.
+  intros w. induction h; intros x l; destruct l as [|y l]; unfold get_acc; simpl.
+  - rewrite cnt_acc_values_cons. unfold acc_values, cav. simpl. rewrite cnt_nil. lia.
+  - rewrite !cnt_acc_values_cons. lia.
+  - rewrite cnt_acc_values_cons. specialize (IHh x []). unfold get_acc in IHh. destruct h; simpl in *; unfold cav in *; simpl in *; lia.
+  - rewrite !cnt_acc_values_cons. specialize (IHh x l). unfold get_acc in IHh. lia.
+Qed.
+Lemma get_set_acc_same : forall h x l, get_acc (set_acc h x l) h = x.
+Proof. induction h; intros x l; destruct l; unfold get_acc in *; simpl; auto. Qed.
+Lemma get_set_acc_other : forall h g x l, h <> g -> get_acc (set_acc h x l) g = get_acc l g.
+Proof.
+  induction h; intros g x l Hne; destruct l; destruct g; unfold get_acc in *; simpl; try congruence; auto.
+  - destruct g; reflexivity.
+  - rewrite IHh by congruence. destruct g; reflexivity.
+Qed.
+Lemma armed_in_values : forall l h, fst (get_acc l h) = true -> In (fst (snd (get_acc l h))) (acc_values l).
+Proof.
+  induction l as [|a l IH]; intros h H; unfold get_acc in *.
+  - destruct h; simpl in H; discriminate.
+  - destruct h; simpl in *.
+    + unfold acc_values. simpl. rewrite H. now left.
+    + specialize (IH h H). unfold acc_values in *. simpl. destruct (fst a); [right|]; auto.
+Qed.
+
 Lemma TI_goto_same : forall s th p, TI s th -> TIpc s p -> TI s (goto th p).
-Proof. intros s th p (A & B & _) P. split; [|split]; auto. Qed.
+Proof. intros s th p (A & B & _ & Qa) P. split; [|split; [|split]]; auto. Qed.
 
 Lemma enter_alloc_good : forall s ths t th, Good s ths -> nth_error ths t = Some th ->
   pc_owned (tpc th) = [] -> Good s (set_nth t (enter_alloc c th (hv s) (hk s)) ths).
@@ -351,7 +398,36 @@ Lemma skip_good : forall s ths t th r, Good s ths -> nth_error ths t = Some th -
 Proof.
   intros s ths t th r G Hn Hpc. apply (good_local s ths t th); auto.
   - intros v. unfold ocnt, owned_thread. simpl. now rewrite Hpc.
-  - destruct (g_thr _ _ G _ _ Hn) as (A & B & _). split; [|split]; simpl; auto.
+  - destruct (g_thr _ _ G _ _ Hn) as (A & B & _ & Qa). split; [|split; [|split]]; simpl; auto.
+Qed.
+
+(* the cells of the values a thread keeps in its lists are different from the cell of the value in its pc *)
+Lemma lists_other_than_pc : forall s ths t th x, Good s ths -> nth_error ths t = Some th -> In x (pc_owned (tpc th)) ->
+  forall v, In v (map fst (held th)) \/ In v (map fst (taken th)) \/ In v (acc_values (accs th)) -> 0 <= v /\ 0 <= x /\ v <> x.
+Proof.
+  intros s ths t th x G Hn Hx v Hv.
+  assert (Ox : In x (owned_thread th)) by (apply pc_owned_in; auto).
+  destruct (excl_thread s ths t th x (g_cnt _ _ G) Hn (proj1 (owned_in _ _) Ox)) as (Rx & _ & _ & O1 & _).
+  assert (Ov : In v (owned_thread th)).
+  { unfold owned_thread. destruct Hv as [H|[H|H]]; apply in_or_app; [left; auto|right|right]; apply in_or_app;
+      [left; auto|right]. apply in_or_app. now right. }
+  destruct (excl_thread s ths t th v (g_cnt _ _ G) Hn (proj1 (owned_in _ _) Ov)) as (Rv & _).
+  split; [lia|]. split; [lia|]. intro; subst v.
+  unfold ocnt, owned_thread in O1. rewrite !cnt_app in O1. apply cnt_in in Hx.
+  destruct Hv as [H|[H|H]]; apply cnt_in in H; lia.
+Qed.
+Lemma TI_lists_set_nxt : forall s ths t th x y, Good s ths -> nth_error ths t = Some th -> In x (pc_owned (tpc th)) ->
+  (forall v k, In (v, k) (held th) -> getz (setz (nxt s) x y) v = ACT /\ getz (sver s) v <= hk s) /\
+  (forall v k, In (v, k) (taken th) -> getz (setz (nxt s) x y) v = ACT /\ getz (sver s) v <= hk s + 1) /\
+  (forall v, In v (acc_values (accs th)) -> getz (setz (nxt s) x y) v = ACT /\ getz (sver s) v <= hk s + 1).
+Proof.
+  intros s ths t th x y G Hn Hx. destruct (g_thr _ _ G _ _ Hn) as (A & B & _ & Qa).
+  pose proof (lists_other_than_pc s ths t th x G Hn Hx) as L. split; [|split].
+  - intros v k Hi. destruct (A _ _ Hi). destruct (L v) as (?&?&?); [left; eapply in_map_fst; eauto|].
+    rewrite getz_setz_other; auto.
+  - intros v k Hi. destruct (B _ _ Hi). destruct (L v) as (?&?&?); [right; left; eapply in_map_fst; eauto|].
+    rewrite getz_setz_other; auto.
+  - intros v Hi. destruct (Qa _ Hi). destruct (L v) as (?&?&?); [right; right; auto|]. rewrite getz_setz_other; auto.
 Qed.
 
 (* finish_alloc after the store of ACTIVE_FLAG into the cell of the value just obtained *)
@@ -363,50 +439,44 @@ Proof.
   intros s ths t th v k G Hn Hpc Hk Hs.
   assert (Hv : In v (owned_thread th)). { apply pc_owned_in. rewrite Hpc. now left. }
   destruct (excl_thread s ths t th v (g_cnt _ _ G) Hn (proj1 (owned_in _ _) Hv)) as (Rv & Nfl & Nb & O1 & Oth).
-  unfold ocnt, owned_thread in O1. rewrite Hpc, !cnt_app, cnt_cons, c1_same in O1.
-  destruct (g_thr _ _ G _ _ Hn) as (A & B & _).
-  assert (Hheld : forall x kx, In (x, kx) (held th) -> getz (setz (nxt s) v ACT) x = ACT /\ getz (sver s) x <= hk s).
-  { intros x kx Hi. destruct (A _ _ Hi). split; auto. rewrite getz_setz_other; auto; try lia.
-    - destruct (excl_thread s ths t th x (g_cnt _ _ G) Hn (proj1 (owned_in _ _) (held_owned _ _ _ Hi))). lia.
-    - intro; subst. apply in_map_fst in Hi. apply cnt_in in Hi. lia. }
-  assert (Htaken : forall x kx, In (x, kx) (taken th) -> getz (setz (nxt s) v ACT) x = ACT /\ getz (sver s) x <= hk s + 1).
-  { intros x kx Hi. destruct (B _ _ Hi). split; auto. rewrite getz_setz_other; auto; try lia.
-    - destruct (excl_thread s ths t th x (g_cnt _ _ G) Hn (proj1 (owned_in _ _) (taken_owned _ _ _ Hi))). lia.
-    - intro; subst. apply in_map_fst in Hi. apply cnt_in in Hi. lia. }
+  destruct (g_thr _ _ G _ _ Hn) as (A & B & _ & Qa).
+  assert (Hx : In v (pc_owned (tpc th))) by (rewrite Hpc; now left).
+  destruct (TI_lists_set_nxt s ths t th v ACT G Hn Hx) as (Hheld & Htaken & Hacc).
   apply (good_set_nxt s ths t th); auto.
   - intros w. unfold finish_alloc. unfold ocnt, owned_thread. rewrite Hpc.
     destruct (prog th) as [|[] ?]; simpl; repeat (rewrite ?cnt_app, ?cnt_cons, ?cnt_nil); lia.
   - unfold finish_alloc.
     assert (Hret : TI (set_nxt s v ACT) (ret th ((v, k) :: held th) (taken th) (RId v k))).
-    { split; [|split]; simpl; auto. intros x kx [E|Hi]; eauto. inversion E; subst. rewrite getz_setz_same. split; auto; lia. }
+    { split; [|split; [|split]]; simpl; auto. intros x kx [E|Hi]; eauto. inversion E; subst. rewrite getz_setz_same. split; auto; lia. }
     destruct (prog th) as [|[] ?]; auto.
-    split; [|split]; simpl; auto. rewrite getz_setz_same. repeat split; auto.
+    split; [|split; [|split]]; simpl; auto. rewrite getz_setz_same. repeat split; auto.
 Qed.
+
+Lemma good_inc_fin : forall s ths, Good s ths -> Good (inc_fin s) ths.
+Proof. intros s ths G. destruct G. constructor; auto. Qed.
 
 Lemma free_start_good : forall s ths t th i v k, Good s ths -> nth_error ths t = Some th -> tpc th = Idle ->
   nth_error (held th) i = Some (v, k) ->
-  Good s (set_nth t {| prog := prog th; tpc := FStore v (hv s) (hk s); held := remove_nth i (held th);
-                       taken := taken th; results := results th |} ths).
+  Good s (set_nth t (cont th (FStore v (hv s) (hk s)) (remove_nth i (held th)) (taken th)) ths).
 Proof.
-  intros s ths t th i v k G Hn Hpc Hi. destruct (g_thr _ _ G _ _ Hn) as (A & B & _).
+  intros s ths t th i v k G Hn Hpc Hi. destruct (g_thr _ _ G _ _ Hn) as (A & B & _ & Qa).
   apply (good_local s ths t th); auto.
   - intros w. unfold ocnt, owned_thread. simpl. rewrite Hpc. simpl.
-    rewrite !cnt_app, cnt_cons, cnt_nil, (cnt_remove_nth _ _ _ _ w Hi). lia.
-  - split; [|split]; simpl; auto.
+    repeat (rewrite ?cnt_app, ?cnt_cons, ?cnt_nil). rewrite (cnt_remove_nth _ _ _ _ w Hi). lia.
+  - split; [|split; [|split]]; simpl; auto.
     + intros x kx Hx. apply A with kx. eapply in_remove_nth; eauto.
     + destruct (A v k (nth_error_In _ _ Hi)). lia.
 Qed.
 
 Lemma finish_start_good : forall s ths t th v k r, Good s ths -> nth_error ths t = Some th -> tpc th = Idle ->
   taken th = (v, k) :: r ->
-  Good s (set_nth t {| prog := prog th; tpc := FStore (finish_value v) (hv s) (hk s); held := held th;
-                       taken := r; results := results th |} ths).
+  Good (inc_fin s) (set_nth t (cont th (FStore (finish_value v) (hv s) (hk s)) (held th) r) ths).
 Proof.
-  intros s ths t th v k r G Hn Hpc Ht. destruct (g_thr _ _ G _ _ Hn) as (A & B & _).
-  apply (good_local s ths t th); auto.
+  intros s ths t th v k r G Hn Hpc Ht. destruct (g_thr _ _ G _ _ Hn) as (A & B & _ & Qa).
+  apply good_inc_fin. apply (good_local s ths t th); auto.
   - intros w. unfold ocnt, owned_thread, finish_value. simpl. rewrite Hpc, Ht. simpl.
     repeat (rewrite ?cnt_app, ?cnt_cons, ?cnt_nil). lia.
-  - split; [|split]; simpl; auto.
+  - split; [|split; [|split]]; simpl; auto.
     + intros x kx Hx. apply B with kx. rewrite Ht. now right.
     + unfold finish_value. destruct (B v k). { rewrite Ht. now left. } lia.
 Qed.
@@ -414,7 +484,7 @@ Qed.
 Lemma loadnext_good : forall s ths t th cv ck, Good s ths -> nth_error ths t = Some th -> tpc th = ALoadNext cv ck ->
   Good s (set_nth t (goto th (ACas cv ck (getz (nxt s) (pop_link_index cv)))) ths).
 Proof.
-  intros s ths t th cv ck G Hn Hpc. pose proof (g_thr _ _ G _ _ Hn) as HT. pose proof HT as (A & B & P).
+  intros s ths t th cv ck G Hn Hpc. pose proof (g_thr _ _ G _ _ Hn) as HT. pose proof HT as (A & B & P & Qa).
   rewrite Hpc in P. simpl in P. destruct P as (P1 & P2 & P3).
   apply (good_local s ths t th); auto.
   - intros w. unfold ocnt, owned_thread. simpl. now rewrite Hpc.
@@ -426,26 +496,19 @@ Lemma fstore_good : forall s ths t th v cv ck, Good s ths -> nth_error ths t = S
   Good (set_nxt s (push_link_index v) (push_link_value cv)) (set_nth t (goto th (FCas v cv ck)) ths).
 Proof.
   intros s ths t th v cv ck G Hn Hpc. unfold push_link_index, push_link_value.
-  assert (Hv : In v (owned_thread th)). { apply pc_owned_in. rewrite Hpc. now left. }
-  destruct (excl_thread s ths t th v (g_cnt _ _ G) Hn (proj1 (owned_in _ _) Hv)) as (Rv & Nfl & Nb & O1 & Oth).
-  unfold ocnt, owned_thread in O1. rewrite Hpc in O1. simpl in O1. rewrite !cnt_app, cnt_cons, c1_same in O1.
-  destruct (g_thr _ _ G _ _ Hn) as (A & B & P). rewrite Hpc in P. simpl in P.
+  assert (Hx : In v (pc_owned (tpc th))) by (rewrite Hpc; now left).
+  assert (Hv : In v (owned_thread th)) by (apply pc_owned_in; auto).
+  destruct (TI_lists_set_nxt s ths t th v cv G Hn Hx) as (Hheld & Htaken & Hacc).
+  destruct (g_thr _ _ G _ _ Hn) as (A & B & P & Qa). rewrite Hpc in P. simpl in P.
   apply (good_set_nxt s ths t th); auto.
   - intros w. unfold ocnt, owned_thread. simpl. now rewrite Hpc.
-  - split; [|split]; simpl.
-    + intros x kx Hi. destruct (A _ _ Hi). split; auto. rewrite getz_setz_other; auto; try lia.
-      * destruct (excl_thread s ths t th x (g_cnt _ _ G) Hn (proj1 (owned_in _ _) (held_owned _ _ _ Hi))). lia.
-      * intro; subst. apply in_map_fst in Hi. apply cnt_in in Hi. lia.
-    + intros x kx Hi. destruct (B _ _ Hi). split; auto. rewrite getz_setz_other; auto; try lia.
-      * destruct (excl_thread s ths t th x (g_cnt _ _ G) Hn (proj1 (owned_in _ _) (taken_owned _ _ _ Hi))). lia.
-      * intro; subst. apply in_map_fst in Hi. apply cnt_in in Hi. lia.
-    + destruct P. repeat split; auto. apply getz_setz_same.
+  - split; [|split; [|split]]; simpl; auto. destruct P. repeat split; auto. apply getz_setz_same.
 Qed.
 
 Lemma fcas_fail_good : forall s ths t th v cv ck, Good s ths -> nth_error ths t = Some th -> tpc th = FCas v cv ck ->
   Good s (set_nth t (goto th (FStore v (hv s) (hk s))) ths).
 Proof.
-  intros s ths t th v cv ck G Hn Hpc. pose proof (g_thr _ _ G _ _ Hn) as HT. pose proof HT as (A & B & P).
+  intros s ths t th v cv ck G Hn Hpc. pose proof (g_thr _ _ G _ _ Hn) as HT. pose proof HT as (A & B & P & Qa).
   rewrite Hpc in P. simpl in P. apply (good_local s ths t th); auto.
   - intros w. unfold ocnt, owned_thread. simpl. now rewrite Hpc.
   - apply TI_goto_same; auto. simpl. split; [lia|tauto].
@@ -455,9 +518,9 @@ Lemma mint_good : forall s ths t th, Good s ths -> nth_error ths t = Some th -> 
   Good (set_nv s (nv s + mint_increment)) (set_nth t (goto th (AMintMark (nv s))) ths).
 Proof.
   intros s ths t th G Hn Hpc. pose proof G as G0. destruct G0. unfold mint_increment.
-  destruct (g_thr0 _ _ Hn) as (A & B & _).
+  destruct (g_thr0 _ _ Hn) as (A & B & _ & Qa).
   refine (good_intro s ths t th _ _ G Hn _ _ _ _ _ _ _ _ _ _ _ _); simpl; auto.
-  - intros w. unfold ocnt, owned_thread, cntb, inrange. simpl. rewrite Hpc. simpl. rewrite !cnt_app, cnt_cons, !cnt_nil.
+  - intros w. unfold ocnt, owned_thread, cntb, inrange. simpl. rewrite Hpc. simpl. repeat (rewrite ?cnt_app, ?cnt_cons, ?cnt_nil).
     unfold c1. destruct (Z.eq_dec (nv s) w).
     + subst. replace (0 <=? nv s) with true by (symmetry; apply Z.leb_le; lia).
       replace (nv s <? nv s) with false by (symmetry; apply Z.ltb_ge; lia).
@@ -466,7 +529,7 @@ Proof.
       destruct (w <? nv s) eqn:E2; destruct (w <? nv s + 1) eqn:E3; lia.
   - lia.
   - intros v Hv. apply g_fresh0. lia.
-  - split; [|split]; simpl; auto. rewrite g_fresh0; lia.
+  - split; [|split; [|split]]; simpl; auto. rewrite g_fresh0; lia.
   - intros t0 th0 Hne Hn0. apply (others_frame s _ ths t0); auto.
 Qed.
 
@@ -476,7 +539,7 @@ Lemma acas_ok_good : forall s ths t th cv ck nx, Good s ths -> nth_error ths t =
 Proof.
   intros s ths t th cv ck nx G Hn Hpc Ehv Ehk. rewrite wrapk_id. unfold pop_new_version. subst cv ck.
   pose proof G as G0. destruct G0.
-  destruct (g_thr0 _ _ Hn) as (A & B & P). rewrite Hpc in P. simpl in P. destruct P as (P1 & P2 & P3).
+  destruct (g_thr0 _ _ Hn) as (A & B & P & Qa). rewrite Hpc in P. simpl in P. destruct P as (P1 & P2 & P3).
   destruct (chain_head _ _ _ g_chain0 P1) as (r & Efl & Hch).
   assert (Hin : In (hv s) (fl s)) by (rewrite Efl; now left).
   assert (Enx : getz (nxt s) (hv s) = nx). { destruct (P3 eq_refl) as [[_ E]|N]; [auto|contradiction]. }
@@ -493,7 +556,7 @@ Proof.
   - auto.
   - auto.
   - auto.
-  - split; [exact A | split; [exact B |]]. simpl. split; [lia | apply g_flver0; exact Hin].
+  - split; [exact A | split; [exact B | split; [|exact Qa]]]. simpl. split; [lia | apply g_flver0; exact Hin].
   - intros t0 th0 Hne Hn0. apply (TI_frame s); simpl; auto; try lia.
     + eapply g_thr0; eauto.
     + intros cv ck Hcv Hck Ab. unfold aba1 in *. simpl. intros E. rewrite Efl. simpl. right.
@@ -506,17 +569,22 @@ Proof.
       * intro Hr. apply N1. rewrite Efl. now right.
 Qed.
 
+Lemma finish_free_facts : forall th, tpc (finish_free th) = Idle /\ held (finish_free th) = held th /\
+  taken (finish_free th) = taken th /\ accs (finish_free th) = accs th.
+Proof. intros th. unfold finish_free. destruct (prog th) as [|[] ?]; simpl; auto. Qed.
+
 Lemma fcas_ok_good : forall s ths t th v cv ck, Good s ths -> nv s <= ACT -> nth_error ths t = Some th ->
   tpc th = FCas v cv ck -> hv s = cv -> hk s = ck ->
   Good (set_head s v (wrapk c (push_new_version ck)) (v :: fl s)) (set_nth t (finish_free th) ths).
 Proof.
   intros s ths t th v cv ck G Hnv Hn Hpc Ehv Ehk. rewrite wrapk_id. unfold push_new_version. subst cv ck.
   pose proof G as G0. destruct G0.
-  destruct (g_thr0 _ _ Hn) as (A & B & P). rewrite Hpc in P. simpl in P. destruct P as (P0 & P1 & P2).
+  destruct (g_thr0 _ _ Hn) as (A & B & P & Qa). rewrite Hpc in P. simpl in P. destruct P as (P0 & P1 & P2).
   assert (Hv : In v (owned_thread th)). { apply pc_owned_in. rewrite Hpc. now left. }
   destruct (excl_thread s ths t th v g_cnt0 Hn (proj1 (owned_in _ _) Hv)) as (Rv & Nfl & Nb & O1 & Oth).
   refine (good_intro s ths t th _ _ G Hn _ _ _ _ _ _ _ _ _ _ _ _); simpl.
-  - intros w. unfold finish_free, ocnt, owned_thread, cntb, inrange. simpl. rewrite Hpc. simpl.
+  - intros w. destruct (finish_free_facts th) as (F1 & F2 & F3 & F4).
+    unfold ocnt, owned_thread, cntb, inrange. rewrite F1, F2, F3, F4, Hpc. simpl.
     repeat (rewrite ?cnt_app, ?cnt_cons, ?cnt_nil). lia.
   - split; auto. rewrite P2. exact g_chain0.
   - lia.
@@ -527,9 +595,11 @@ Proof.
   - auto.
   - auto.
   - auto.
-  - unfold finish_free. split; [|split]; simpl; auto.
+  - destruct (finish_free_facts th) as (F1 & F2 & F3 & F4). unfold TI. rewrite F1, F2, F3, F4.
+    split; [|split; [|split]]; simpl; auto.
     + intros x k Hi. destruct (A _ _ Hi). split; auto. lia.
     + intros x k Hi. destruct (B _ _ Hi). split; auto. lia.
+    + intros x Hi. destruct (Qa _ Hi). split; auto. lia.
   - intros t0 th0 Hne Hn0. apply (TI_frame s); simpl; auto; try lia.
     + eapply g_thr0; eauto.
     + intros cv ck Hcv Hck Ab. unfold aba1. simpl. intros E. lia.
@@ -543,7 +613,7 @@ Lemma eslot_good : forall s ths t th v k, Good s ths -> nth_error ths t = Some t
 Proof.
   intros s ths t th v k G Hn Hpc. unfold emplace_slot_index, emplace_version.
   pose proof G as G0. destruct G0.
-  destruct (g_thr0 _ _ Hn) as (A & B & P). rewrite Hpc in P. simpl in P. destruct P as (P1 & P2 & P3).
+  destruct (g_thr0 _ _ Hn) as (A & B & P & Qa). rewrite Hpc in P. simpl in P. destruct P as (P1 & P2 & P3).
   assert (Hv : In v (owned_thread th)). { apply pc_owned_in. rewrite Hpc. now left. }
   destruct (excl_thread s ths t th v g_cnt0 Hn (proj1 (owned_in _ _) Hv)) as (Rv & Nfl & Nb & O1 & Oth).
   unfold ocnt, owned_thread in O1. rewrite Hpc in O1. simpl in O1. rewrite !cnt_app, cnt_cons, c1_same in O1.
@@ -566,27 +636,44 @@ Proof.
     + subst. right. now left.
   - auto.
   - auto.
-  - split; [|split]; simpl; auto.
-    + intros x kx Hi. destruct (A _ _ Hi). split; auto. rewrite getz_setz_other; auto; try lia.
-      * destruct (excl_thread s ths t th x g_cnt0 Hn (proj1 (owned_in _ _) (held_owned _ _ _ Hi))). lia.
-      * intro; subst. apply in_map_fst in Hi. apply cnt_in in Hi. lia.
-    + intros x kx Hi. destruct (B _ _ Hi). split; auto. rewrite getz_setz_other; auto; try lia.
-      * destruct (excl_thread s ths t th x g_cnt0 Hn (proj1 (owned_in _ _) (taken_owned _ _ _ Hi))). lia.
-      * intro; subst. apply in_map_fst in Hi. apply cnt_in in Hi. lia.
+  - assert (Hx : In v (pc_owned (tpc th))) by (rewrite Hpc; now left).
+    pose proof (lists_other_than_pc s ths t th v G Hn Hx) as L. split; [|split; [|split]]; simpl; auto.
+    + intros x kx Hi. destruct (A _ _ Hi). destruct (L x) as (?&?&?); [left; eapply in_map_fst; eauto|].
+      rewrite getz_setz_other; auto.
+    + intros x kx Hi. destruct (B _ _ Hi). destruct (L x) as (?&?&?); [right; left; eapply in_map_fst; eauto|].
+      rewrite getz_setz_other; auto.
+    + intros x Hi. destruct (Qa _ Hi). destruct (L x) as (?&?&?); [right; right; auto|]. rewrite getz_setz_other; auto.
   - intros t0 th0 Hne Hn0. apply (others_frame s _ ths t0); auto. simpl. intros x Hx.
     destruct (excl_thread s ths t0 th0 x g_cnt0 Hn0 (proj1 (owned_in _ _) Hx)) as (Rx & _).
     rewrite getz_setz_other; auto; try lia. intro; subst. pose proof (Oth t0 th0 Hne Hn0). apply owned_in in Hx. lia.
 Qed.
 
-Lemma take_ok_good : forall s ths t th v kk, Good s ths -> nth_error ths t = Some th -> tpc th = Idle ->
-  In (v, kk) (ids s) -> getz (sver s) (take_slot_index v) = take_expected kk ->
-  Good (set_box s (setz (sver s) (take_slot_index v) (wrapk c (take_desired kk))) (ids s)
-                (remove_v v (boxed s)) ((v, kk) :: wins s) (miss s))
-       (set_nth t (ret th (held th) (taken th ++ [(v, kk)]) (RTake true)) ths).
+Lemma in_acc_values_set : forall h x l v, In v (acc_values (set_acc h x l)) ->
+  (fst x = true /\ v = fst (snd x)) \/ In v (acc_values l).
 Proof.
-  intros s ths t th v kk G Hn Hpc Hid Hcas. rewrite wrapk_id. unfold take_slot_index, take_expected, take_desired in *.
+  intros h x l v Hi. apply cnt_in in Hi. pose proof (cnt_acc_set v h x l) as E.
+  destruct (fst x) eqn:Fx.
+  - destruct (Z.eq_dec (fst (snd x)) v); [left; split; auto|]. right. apply cnt_in. unfold cav in E. rewrite Fx in E.
+    rewrite (c1_diff (fst (snd x)) v) in E by auto. lia.
+  - right. apply cnt_in. unfold cav in E. rewrite Fx in E. lia.
+Qed.
+
+(* a successful take_released CAS on (v,kk): the shared part, for any way the taking thread keeps the slot *)
+Lemma take_ok_gen : forall s ths t th v kk, Good s ths -> nth_error ths t = Some th ->
+  In (v, kk) (ids s) -> getz (sver s) (take_slot_index v) = take_expected kk ->
+  let s' := set_box s (setz (sver s) (take_slot_index v) (wrapk c (take_desired kk))) (ids s)
+                    (remove_v v (boxed s)) ((v, kk) :: wins s) (miss s) in
+  (* what the thread's lists look like in the new shared state *)
+  ((forall x kx, In (x, kx) (held th) -> getz (nxt s') x = ACT /\ getz (sver s') x <= hk s') /\
+   (forall x kx, In (x, kx) (taken th) -> getz (nxt s') x = ACT /\ getz (sver s') x <= hk s' + 1) /\
+   (forall x, In x (acc_values (accs th)) -> getz (nxt s') x = ACT /\ getz (sver s') x <= hk s' + 1) /\
+   (getz (nxt s') v = ACT /\ getz (sver s') v <= hk s' + 1)) /\
+  (forall th', (forall w, ocnt w th' = (ocnt w th + c1 v w)%nat) -> TI s' th' -> Good s' (set_nth t th' ths)).
+Proof.
+  intros s ths t th v kk G Hn Hid Hcas s'. unfold s'. clear s'. rewrite wrapk_id.
+  unfold take_slot_index, take_expected, take_desired in *.
   pose proof G as G0. destruct G0.
-  destruct (g_thr0 _ _ Hn) as (A & B & _).
+  destruct (g_thr0 _ _ Hn) as (A & B & _ & Qa).
   assert (Hb : In (v, kk) (boxed s)).
   { destruct (g_ids0 _ Hid) as [W|Bx]; auto. destruct (g_wins0 _ _ W). lia. }
   destruct (excl_box s ths v kk g_cnt0 Hb) as (Rv & Nfl & Cb & Oall).
@@ -598,9 +685,18 @@ Proof.
   assert (Hown : forall t0 th0 x, nth_error ths t0 = Some th0 -> In x (owned_thread th0) -> 0 <= x /\ x <> v).
   { intros t0 th0 x Hn0 Hx. destruct (excl_thread s ths t0 th0 x g_cnt0 Hn0 (proj1 (owned_in _ _) Hx)) as (Rx & _).
     split; [lia|]. intro; subst. pose proof (Oall t0 th0 Hn0). apply owned_in in Hx. lia. }
+  split.
+  { simpl. split; [|split; [|split]].
+    - intros x kx Hi. destruct (A _ _ Hi). destruct (Hown t th x Hn (held_owned _ _ _ Hi)). split; auto.
+      rewrite getz_setz_other; auto; lia.
+    - intros x kx Hi. destruct (B _ _ Hi). destruct (Hown t th x Hn (taken_owned _ _ _ Hi)). split; auto.
+      rewrite getz_setz_other; auto; lia.
+    - intros x Hi. destruct (Qa _ Hi). destruct (Hown t th x Hn (acc_owned _ _ Hi)). split; auto.
+      rewrite getz_setz_other; auto; lia.
+    - rewrite getz_setz_same. split; auto. lia. }
+  intros th' Hc HT.
   refine (good_intro s ths t th _ _ G Hn _ _ _ _ _ _ _ _ _ _ _ _); simpl.
-  - intros w. unfold ocnt, owned_thread, cntb, inrange. simpl. rewrite Hpc. simpl. specialize (CR w).
-    repeat (rewrite ?map_app, ?cnt_app, ?cnt_cons, ?cnt_nil). simpl. rewrite cnt_cons, cnt_nil. unfold id in *. lia.
+  - intros w. rewrite Hc. unfold cntb, inrange. simpl. specialize (CR w). unfold id in *. lia.
   - exact g_chain0.
   - auto.
   - intros x Hx. pose proof (fl_range _ _ G x Hx). rewrite getz_setz_other; auto; try lia. intro; subst; auto.
@@ -618,15 +714,39 @@ Proof.
     + right. apply in_remove_v_other; auto.
   - auto.
   - constructor; auto. intro W. destruct (g_wins0 _ _ W). lia.
-  - split; [|split]; simpl; auto.
-    + intros x kx Hi. destruct (A _ _ Hi). destruct (Hown t th x Hn (held_owned _ _ _ Hi)). split; auto.
-      rewrite getz_setz_other; auto; lia.
-    + intros x kx Hi. apply in_app_or in Hi. destruct Hi as [Hi|[E|[]]].
-      * destruct (B _ _ Hi). destruct (Hown t th x Hn (taken_owned _ _ _ Hi)). split; auto.
-        rewrite getz_setz_other; auto; lia.
-      * inversion E; subst. rewrite getz_setz_same. split; auto. lia.
+  - exact HT.
   - intros t0 th0 Hne Hn0. apply (others_frame s _ ths t0); auto. simpl. intros x Hx.
     destruct (Hown t0 th0 x Hn0 Hx). rewrite getz_setz_other; auto; lia.
+Qed.
+
+Lemma take_ok_good : forall s ths t th v kk, Good s ths -> nth_error ths t = Some th -> tpc th = Idle ->
+  In (v, kk) (ids s) -> getz (sver s) (take_slot_index v) = take_expected kk ->
+  Good (set_box s (setz (sver s) (take_slot_index v) (wrapk c (take_desired kk))) (ids s)
+                (remove_v v (boxed s)) ((v, kk) :: wins s) (miss s))
+       (set_nth t (ret th (held th) (taken th ++ [(v, kk)]) (RTake true)) ths).
+Proof.
+  intros s ths t th v kk G Hn Hpc Hid Hcas.
+  destruct (take_ok_gen s ths t th v kk G Hn Hid Hcas) as ((L1 & L2 & L3 & L4) & Hgen). apply Hgen.
+  - intros w. unfold ocnt, owned_thread. simpl. rewrite Hpc. simpl.
+    repeat (rewrite ?map_app, ?cnt_app, ?cnt_cons, ?cnt_nil). simpl. repeat (rewrite ?cnt_cons, ?cnt_nil). unfold id in *. lia.
+  - split; [|split; [|split]]; simpl; auto.
+    intros x kx Hi. apply in_app_or in Hi. destruct Hi as [Hi|[E|[]]]; eauto. inversion E; subst. exact L4.
+Qed.
+
+(* a failed take_released CAS: only the ghost flag may change *)
+Lemma take_fail_gen : forall s ths t th v kk, Good s ths -> nth_error ths t = Some th ->
+  In (v, kk) (ids s) -> getz (sver s) (take_slot_index v) <> take_expected kk ->
+  let s' := set_box s (sver s) (ids s) (boxed s) (wins s) (miss s || negb (mem_id (v, kk) (wins s))) in
+  forall th', (forall w, ocnt w th' = ocnt w th) -> TI s th' -> Good s' (set_nth t th' ths).
+Proof.
+  intros s ths t th v kk G Hn Hid Hcas s' th' Hc HT. unfold s'. unfold take_slot_index, take_expected in *.
+  pose proof G as G0. destruct G0. destruct (g_thr0 _ _ Hn) as (A & B & _ & Qa).
+  assert (W : In (v, kk) (wins s)).
+  { destruct (g_ids0 _ Hid) as [W|Bx]; auto. destruct (g_boxed0 _ _ Bx). congruence. }
+  refine (good_intro s ths t th _ _ G Hn _ _ _ _ _ _ _ _ _ _ _ _); simpl; auto;
+    try (intros w; rewrite Hc; unfold cntb, inrange; simpl; lia);
+    try (rewrite g_miss0, (mem_id_in _ _ W); reflexivity).
+  intros t0 th0 Hne Hn0. apply (others_frame s _ ths t0); auto.
 Qed.
 
 Lemma take_fail_good : forall s ths t th v kk, Good s ths -> nth_error ths t = Some th -> tpc th = Idle ->
@@ -634,27 +754,125 @@ Lemma take_fail_good : forall s ths t th v kk, Good s ths -> nth_error ths t = S
   Good (set_box s (sver s) (ids s) (boxed s) (wins s) (miss s || negb (mem_id (v, kk) (wins s))))
        (set_nth t (ret th (held th) (taken th) (RTake false)) ths).
 Proof.
-  intros s ths t th v kk G Hn Hpc Hid Hcas. unfold take_slot_index, take_expected in *.
-  pose proof G as G0. destruct G0. destruct (g_thr0 _ _ Hn) as (A & B & _).
-  assert (W : In (v, kk) (wins s)).
-  { destruct (g_ids0 _ Hid) as [W|Bx]; auto. destruct (g_boxed0 _ _ Bx). congruence. }
-  refine (good_intro s ths t th _ _ G Hn _ _ _ _ _ _ _ _ _ _ _ _); simpl; auto.
-  - intros w. unfold ocnt, owned_thread, cntb, inrange. simpl. rewrite Hpc. simpl. lia.
-  - rewrite g_miss0, (mem_id_in _ _ W). reflexivity.
-  - split; [|split]; simpl; auto.
-  - intros t0 th0 Hne Hn0. apply (others_frame s _ ths t0); auto.
+  intros s ths t th v kk G Hn Hpc Hid Hcas. destruct (g_thr _ _ G _ _ Hn) as (A & B & _ & Qa).
+  apply (take_fail_gen s ths t th v kk); auto.
+  - intros w. unfold ocnt, owned_thread. simpl. now rewrite Hpc.
+  - split; [|split; [|split]]; simpl; auto.
+Qed.
+
+(* ---- accessor operations ---- *)
+Lemma acc_values_sub_set2 : forall h g a b l v, fst a = true -> In (fst (snd a)) (acc_values l) \/ True ->
+  In v (acc_values (set_acc g b (set_acc h a l))) ->
+  (fst b = true /\ v = fst (snd b)) \/ (fst a = true /\ v = fst (snd a)) \/ In v (acc_values l).
+Proof.
+  intros h g a b l v _ _ Hi. apply in_acc_values_set in Hi. destruct Hi as [Hb|Hi]; [now left|].
+  apply in_acc_values_set in Hi. destruct Hi as [Ha|Hi]; auto.
+Qed.
+
+Lemma TI_local : forall s th p a', TI s th -> TIpc s p ->
+  (forall v, In v (acc_values a') -> In v (acc_values (accs th))) ->
+  forall pg rs, TI s {| prog := pg; tpc := p; held := held th; taken := taken th; accs := a'; results := rs |}.
+Proof.
+  intros s th p a' (A & B & _ & Qa) P Hsub pg rs. split; [|split; [|split]]; simpl; auto.
+Qed.
+
+(* the part of an OAcTake step after the CAS: holder h := (ok, id), the temporary = old content of holder h dies *)
+Definition after_take (th : thread) (h : nat) (ok : bool) (i : id) : thread :=
+  push_res (set_accs th (set_acc h (ok, i) (accs th))) (RTake ok).
+
+Lemma acctake_thread : forall s' th h ok v kk, tpc th = Idle ->
+  let old := get_acc (accs th) h in
+  let th1 := after_take th h ok (v, kk) in
+  let th' := if fst old then goto th1 (DLoad (fst (snd old))) else pop_op th1 in
+  (* the thread's lists are fine in s' *)
+  (forall x kx, In (x, kx) (held th) -> getz (nxt s') x = ACT /\ getz (sver s') x <= hk s') ->
+  (forall x kx, In (x, kx) (taken th) -> getz (nxt s') x = ACT /\ getz (sver s') x <= hk s' + 1) ->
+  (forall x, In x (acc_values (accs th)) -> getz (nxt s') x = ACT /\ getz (sver s') x <= hk s' + 1) ->
+  (ok = true -> getz (nxt s') v = ACT /\ getz (sver s') v <= hk s' + 1) ->
+  (forall w, ocnt w th' = (ocnt w th + (if ok then c1 v w else O))%nat) /\ TI s' th'.
+Proof.
+  intros s' th h ok v kk Hpc old th1 th' L1 L2 L3 L4.
+  assert (Hval : forall x, In x (acc_values (set_acc h (ok, (v, kk)) (accs th))) ->
+                 getz (nxt s') x = ACT /\ getz (sver s') x <= hk s' + 1).
+  { intros x Hi. apply in_acc_values_set in Hi. destruct Hi as [[Eo Ex]|Hi]; auto. simpl in *. subst. auto. }
+  split.
+  - intros w. pose proof (cnt_acc_set w h (ok, (v, kk)) (accs th)) as E. fold old in E.
+    unfold th', th1, after_take, ocnt, owned_thread. unfold cav in E. simpl in E.
+    destruct (fst old) eqn:Fo; simpl; rewrite Hpc; simpl; repeat (rewrite ?cnt_app, ?cnt_cons, ?cnt_nil).
+    + unfold acc, id in *. destruct ok; lia.
+    + unfold acc, id in *. destruct ok; lia.
+  - unfold th'. destruct (fst old) eqn:Fo.
+    + split; [|split; [|split]]; simpl; auto. apply L3. unfold old. apply armed_in_values. exact Fo.
+    + split; [|split; [|split]]; simpl; auto.
+Qed.
+
+Lemma accmove_good : forall s ths t th h g, Good s ths -> nth_error ths t = Some th -> tpc th = Idle -> h <> g ->
+  Good s (set_nth t (ret (set_accs th (set_acc g (get_acc (accs th) h) (set_acc h (get_acc (accs th) g) (accs th))))
+                         (held th) (taken th) RAcc) ths).
+Proof.
+  intros s ths t th h g G Hn Hpc Hne. pose proof (g_thr _ _ G _ _ Hn) as HT. pose proof HT as (A & B & _ & Qa).
+  apply (good_local s ths t th); auto.
+  - intros w. unfold ocnt, owned_thread. simpl. rewrite Hpc. simpl.
+    pose proof (cnt_acc_set w g (get_acc (accs th) h) (set_acc h (get_acc (accs th) g) (accs th))) as E1.
+    rewrite get_set_acc_other in E1 by auto.
+    pose proof (cnt_acc_set w h (get_acc (accs th) g) (accs th)) as E2.
+    repeat (rewrite ?cnt_app, ?cnt_cons, ?cnt_nil). lia.
+  - apply (TI_local s th Idle); simpl; auto. intros v Hi.
+    apply in_acc_values_set in Hi. destruct Hi as [[F E]|Hi]; [subst; now apply armed_in_values|].
+    apply in_acc_values_set in Hi. destruct Hi as [[F E]|Hi]; [subst; now apply armed_in_values|auto].
+Qed.
+
+Lemma accctor_good : forall s ths t th h g, Good s ths -> nth_error ths t = Some th -> tpc th = Idle -> h <> g ->
+  fst (get_acc (accs th) h) = false ->
+  Good s (set_nth t (do_ctor th h g) ths).
+Proof.
+  intros s ths t th h g G Hn Hpc Hne Hempty. pose proof (g_thr _ _ G _ _ Hn) as HT. pose proof HT as (A & B & _ & Qa).
+  unfold do_ctor. rewrite acc_ctor_spec. apply (good_local s ths t th); auto.
+  - intros w. unfold ocnt, owned_thread. simpl. rewrite Hpc. simpl.
+    pose proof (cnt_acc_set w g (false, snd (get_acc (accs th) g)) (set_acc h (get_acc (accs th) g) (accs th))) as E1.
+    rewrite get_set_acc_other in E1 by auto.
+    pose proof (cnt_acc_set w h (get_acc (accs th) g) (accs th)) as E2.
+    unfold cav in *. rewrite Hempty in E2. simpl in E1.
+    repeat (rewrite ?cnt_app, ?cnt_cons, ?cnt_nil). lia.
+  - apply (TI_local s th Idle); simpl; auto. intros v Hi.
+    apply in_acc_values_set in Hi. destruct Hi as [[F E]|Hi]; [simpl in F; discriminate|].
+    apply in_acc_values_set in Hi. destruct Hi as [[F E]|Hi]; [subst; now apply armed_in_values|auto].
+Qed.
+
+Lemma accdrop_good : forall s ths t th h, Good s ths -> nth_error ths t = Some th -> tpc th = Idle ->
+  fst (get_acc (accs th) h) = true ->
+  Good (inc_fin s) (set_nth t (cont (set_accs th (set_acc h empty_acc (accs th)))
+                                   (FStore (fst (snd (get_acc (accs th) h))) (hv s) (hk s)) (held th) (taken th)) ths).
+Proof.
+  intros s ths t th h G Hn Hpc Harm. pose proof (g_thr _ _ G _ _ Hn) as HT. pose proof HT as (A & B & _ & Qa).
+  apply good_inc_fin. apply (good_local s ths t th); auto.
+  - intros w. unfold ocnt, owned_thread. simpl. rewrite Hpc. simpl.
+    pose proof (cnt_acc_set w h empty_acc (accs th)) as E. unfold cav in E. rewrite Harm in E. simpl in E.
+    repeat (rewrite ?cnt_app, ?cnt_cons, ?cnt_nil). lia.
+  - apply (TI_local s th); simpl; auto.
+    + split; [lia|]. apply Qa. now apply armed_in_values.
+    + intros v Hi. apply in_acc_values_set in Hi. destruct Hi as [[F E]|Hi]; [simpl in F; discriminate|auto].
+Qed.
+
+Lemma dload_good : forall s ths t th v, Good s ths -> nth_error ths t = Some th -> tpc th = DLoad v ->
+  Good s (set_nth t (goto th (FStore v (hv s) (hk s))) ths).
+Proof.
+  intros s ths t th v G Hn Hpc. pose proof (g_thr _ _ G _ _ Hn) as HT. pose proof HT as (A & B & P & Qa).
+  rewrite Hpc in P. simpl in P. apply (good_local s ths t th); auto.
+  - intros w. unfold ocnt, owned_thread. simpl. now rewrite Hpc.
+  - apply TI_goto_same; auto. simpl. split; [lia|auto].
 Qed.
 
 Lemma tstep_good : forall s ths t th s' th', Good s ths -> nv s <= ACT -> nth_error ths t = Some th ->
   tstep c s th = Some (s', th') -> Good s' (set_nth t th' ths).
 Proof.
   intros s ths t th s' th' G Hnv Hn Hs. unfold tstep in Hs.
-  pose proof (g_thr _ _ G _ _ Hn) as (TA & TB & TP).
+  pose proof (g_thr _ _ G _ _ Hn) as (TA & TB & TP & TQ).
   destruct (tpc th) eqn:Hpc; simpl in TP.
   - destruct (prog th) as [|o r] eqn:Hp; [discriminate|]. destruct o.
     + inversion Hs; subst. apply enter_alloc_good; auto. now rewrite Hpc.
     + destruct (nth_error (held th) i) as [[v k]|] eqn:Hi; inversion Hs; subst.
-      * rewrite <- Hp. eapply free_start_good; eauto.
+      * eapply free_start_good; eauto.
       * apply skip_good; auto.
     + inversion Hs; subst. apply enter_alloc_good; auto. now rewrite Hpc.
     + destruct (nth_error (ids s) k) as [[v kk]|] eqn:Hk.
@@ -665,7 +883,36 @@ Proof.
       * inversion Hs; subst. apply skip_good; auto.
     + destruct (taken th) as [|[v k] r'] eqn:Ht; inversion Hs; subst.
       * rewrite <- Ht. apply skip_good; auto.
-      * rewrite <- Hp. eapply finish_start_good; eauto.
+      * eapply finish_start_good; eauto.
+    + (* OAcTake *)
+      destruct (nth_error (ids s) k) as [[v kk]|] eqn:Hk; [|inversion Hs; subst; apply skip_good; auto].
+      pose proof (nth_error_In _ _ Hk) as Hin. rewrite !acc_assign_swaps in Hs. rewrite !acc_dtor_fires_spec in Hs.
+      unfold dtor_value, finish_value, acc_dtor_arg in Hs.
+      destruct (getz (sver s) (take_slot_index v) =? take_expected kk) eqn:E.
+      * apply Z.eqb_eq in E.
+        destruct (take_ok_gen s ths t th v kk G Hn Hin E) as ((L1 & L2 & L3 & L4) & Hgen).
+        destruct (acctake_thread _ th h true v kk Hpc L1 L2 L3 (fun _ => L4)) as [Hc HT].
+        destruct (fst (get_acc (accs th) h)) eqn:Fo; inversion Hs; subst.
+        -- apply good_inc_fin. apply Hgen; auto.
+        -- apply Hgen; auto.
+      * apply Z.eqb_neq in E.
+        destruct (acctake_thread s th h false v kk Hpc TA TB TQ) as [Hc HT]; [discriminate|].
+        destruct (fst (get_acc (accs th) h)) eqn:Fo; inversion Hs; subst.
+        -- apply good_inc_fin. apply (take_fail_gen s ths t th v kk); auto. intros w. rewrite Hc. lia.
+        -- apply (take_fail_gen s ths t th v kk); auto. intros w. rewrite Hc. lia.
+    + (* OAcMove *)
+      destruct (Nat.eqb h g) eqn:Ehg.
+      * inversion Hs; subst. apply skip_good; auto.
+      * apply Nat.eqb_neq in Ehg. rewrite acc_assign_swaps in Hs. inversion Hs; subst. apply accmove_good; auto.
+    + (* OAcCtor *)
+      destruct (Nat.eqb h g) eqn:Ehg; simpl in Hs; [inversion Hs; subst; apply skip_good; auto|].
+      apply Nat.eqb_neq in Ehg.
+      destruct (fst (get_acc (accs th) h)) eqn:Fo; inversion Hs; subst; [apply skip_good; auto|].
+      apply accctor_good; auto.
+    + (* OAcDrop *)
+      rewrite acc_dtor_fires_spec in Hs. unfold dtor_value, finish_value, acc_dtor_arg in Hs.
+      destruct (fst (get_acc (accs th) h)) eqn:Fo; inversion Hs; subst; [|apply skip_good; auto].
+      apply accdrop_good; auto.
   - inversion Hs; subst. eapply loadnext_good; eauto.
   - destruct ((hv s =? cv) && (hk s =? ck)) eqn:E; inversion Hs; subst.
     + apply andb_prop in E. destruct E as [E1 E2]. apply Z.eqb_eq in E1. apply Z.eqb_eq in E2. eapply acas_ok_good; eauto.
@@ -678,6 +925,7 @@ Proof.
     + apply andb_prop in E. destruct E as [E1 E2]. apply Z.eqb_eq in E1. apply Z.eqb_eq in E2. eapply fcas_ok_good; eauto.
     + eapply fcas_fail_good; eauto.
   - inversion Hs; subst. eapply eslot_good; eauto.
+  - inversion Hs; subst. eapply dload_good; eauto.
 Qed.
 
 Lemma tstep_nv_mono : forall s th s' th', tstep c s th = Some (s', th') -> nv s <= nv s'.
@@ -704,7 +952,7 @@ Proof.
   - intros v _. unfold getz. destruct (Z.to_nat v); reflexivity.
   - constructor.
   - intros t th Hn. apply nth_error_In in Hn. apply in_map_iff in Hn. destruct Hn as (p & <- & _).
-    split; [|split]; simpl; tauto.
+    split; [|split; [|split]]; simpl; tauto.
 Qed.
 
 Lemma step_nv_mono : forall c s t s', step c s t = Some s' -> nv (sh s) <= nv (sh s').
@@ -775,7 +1023,7 @@ Theorem id_pop_cas_current : forall c progs s t th cv ck nx, vmod c = 0 -> Reach
   getz (nxt (sh s)) cv = nx /\ exists r, fl (sh s) = cv :: r.
 Proof.
   intros c progs s t th cv ck nx Hvm HR Hnv Hn Hpc Ehv Ehk. pose proof (id_good c progs s Hvm HR Hnv) as G.
-  destruct (g_thr _ _ _ G _ _ Hn) as (_ & _ & P). rewrite Hpc in P. simpl in P. destruct P as (P1 & P2 & P3).
+  destruct (g_thr _ _ _ G _ _ Hn) as (_ & _ & P & _). rewrite Hpc in P. simpl in P. destruct P as (P1 & P2 & P3).
   destruct (chain_head c _ _ _ (g_chain _ _ _ G)) as (r & Efl & _). { rewrite Ehv. exact P1. }
   rewrite Ehv in Efl. split; [|eauto]. destruct (P3 (eq_sym Ehk)) as [[_ E]|N]; auto.
   exfalso. apply N. rewrite Efl. now left.
@@ -858,16 +1106,20 @@ Proof.
     destruct (sumf_pos _ (ocnt v) (threads s)) as (th & Hth & Ho); [lia|].
     apply in_flat_map. exists th. split; auto. apply owned_in in Ho. unfold owned_thread in Ho.
     unfold quiescent in Hq. rewrite forallb_forall in Hq. specialize (Hq th Hth). unfold thread_idle in Hq.
-    destruct (tpc th); try discriminate. simpl in Ho. rewrite app_nil_r in Ho. exact Ho.
+    destruct (tpc th); try discriminate. simpl in Ho. exact Ho.
   - intros Hi. apply in_app_or in Hi. destruct Hi as [Hi|Hi].
     + apply in_flat_map in Hi. destruct Hi as (th & Hth & Hv). destruct (In_nth_error _ _ Hth) as (t & Hn).
-      destruct (g_thr _ _ _ G _ _ Hn) as (A & B & _).
+      destruct (g_thr _ _ _ G _ _ Hn) as (A & B & _ & Qa).
       assert (Ho : In v (owned_thread th)).
-      { unfold owned_thread. apply in_app_or in Hv. destruct Hv; apply in_or_app; [left|right; apply in_or_app; left]; auto. }
+      { unfold owned_thread. apply in_app_or in Hv. destruct Hv as [Hv|Hv]; [apply in_or_app; left; auto|].
+        apply in_app_or in Hv. apply in_or_app. right. apply in_or_app. destruct Hv; [left; auto|right].
+        apply in_or_app. now right. }
       destruct (excl_thread (sh s) (threads s) t th v (g_cnt _ _ _ G) Hn (proj1 (owned_in _ _) Ho)) as (R & _).
-      split; auto. apply in_app_or in Hv. destruct Hv as [Hv|Hv]; apply in_map_iff in Hv; destruct Hv as ([x k] & <- & Hxk); simpl.
-      * destruct (A _ _ Hxk); auto.
-      * destruct (B _ _ Hxk); auto.
+      split; auto. apply in_app_or in Hv. destruct Hv as [Hv|Hv].
+      * apply in_map_iff in Hv. destruct Hv as ([x k] & <- & Hxk). simpl. destruct (A _ _ Hxk); auto.
+      * apply in_app_or in Hv. destruct Hv as [Hv|Hv].
+        -- apply in_map_iff in Hv. destruct Hv as ([x k] & <- & Hxk). simpl. destruct (B _ _ Hxk); auto.
+        -- destruct (Qa _ Hv); auto.
     + apply in_map_iff in Hi. destruct Hi as ([x k] & <- & Hxk). simpl.
       destruct (excl_box (sh s) (threads s) x k (g_cnt _ _ _ G) Hxk) as (R & _). split; auto.
       destruct (g_boxed _ _ _ G _ _ Hxk) as (_ & _ & E). exact E.
